@@ -28,6 +28,13 @@ Layers collected so far:
     value; the only `panic` values the model can produce are its own two gap markers (a word the table
     lacks, a value the printing model does not cover), which the driver reports as `unsupported`.
     `vm_step_panics_only_in_words` is the same for one `fetch_and_run` and an arbitrary word table.
+  * L7 whole sources (Model/Session.lean): `source_never_panics` — `build_from_source` (what `eval`, `compile` and a
+    REPL line do) on EVERY session, in every mode, with every token list — meta blocks at any depth, `const`,
+    definitions, unbalanced anything — answers built / rejected / failed, never `panic`; `session_run_never_panics`
+    for `run`. This is `vm_never_panics` carried through the session layer: the VM's two gap markers begin with
+    "model:" (`Session.gap_marker`, a fact about `String.startsWith` on an interpolated message) and are answered
+    `unsupported`; the session layer's own panic branches are unreachable. Because it holds for every session it
+    holds for every history of calls.
   * L1 bit strings (Model/Bitstr.lean, where every index / `unwrap` / subtraction site of bitstr.rs is a
     `panic` value): on a well-formed handle no operation panics (`noPanic_bitstr`, from the C04 refinement
     theorems, which state `= .ok …`).
@@ -43,6 +50,7 @@ import XehModel.Props.C04
 import XehModel.Props.C17loc
 import XehModel.Props.C18
 import XehModel.Proofs.NativeNoPanic
+import XehModel.Proofs.SessionNoPanic
 import XehModel.Driver.C08
 
 namespace Xeh.C08
@@ -126,6 +134,22 @@ theorem vm_never_panics (fuel : Nat) (m : Mach) (s : String) (m' : Mach)
 theorem vm_run_noPanic (np : String → Option Prog) (hall : ∀ name, ∃ p, np name = some p ∧ Mach.PanicFree p)
     (fuel : Nat) (m : Mach) (s : String) (m' : Mach) : Mach.run np fuel m ≠ some (.panic s, m') :=
   Mach.run_np np hall fuel m s m'
+
+/-- **a whole source never panics**: `build_from_source` — reading, compiling, running the meta blocks, closing the
+    context and (in eval mode) running the program — on any session whatsoever (no well-formedness assumed), in any
+    mode, with any token list and any fuel: the answer is never `panic`. Holding for every session, it holds after
+    any history of sources, aborts and runs. -/
+theorem source_never_panics (fuel : Nat) (mode : Mode) (toks : List Compile.Tok) (s : Session.Sess) (p : String)
+    (s' : Session.Sess) : s.buildSource fuel mode toks ≠ .panic p s' :=
+  Session.buildSource_never_panics fuel mode toks s p s'
+
+/-- `run` on any session (what `Xstate::run` does after `compile`) -/
+theorem session_run_never_panics (fuel : Nat) (s : Session.Sess) (p : String) (s' : Session.Sess) :
+    s.runS fuel ≠ .panic p s' := by
+  have := Session.npan_runS s fuel
+  intro h
+  rw [h] at this
+  exact this
 
 /-- the hypothesis `isRunning` of the step theorem is needed: `fetch_and_run` beyond the program does panic
     (which is why `next` and `run` test `ip < code.len()` first) -/
